@@ -89,8 +89,21 @@ func VerifC20Fault() {
 	} else {
 		nd.Assert(err != nil, "fault-is-reported")
 		if err != nil {
-			c := err.Cause()
-			nd.Assert(c == errC20 || err.Error() != "", "error-carries-failure")
+			// the writer's own error is what the SourceError carries
+			var c error = err
+			found := false
+			for i := 0; i < 4 && c != nil; i++ {
+				if c == errC20 {
+					found = true
+					break
+				}
+				se, ok := c.(interface{ Cause() error })
+				if !ok {
+					break
+				}
+				c = se.Cause()
+			}
+			nd.Assert(found, "error-carries-the-writers-failure")
 		}
 		nd.Assert(len(got) <= len(full) && full[:len(got)] == got, "accepted-bytes-are-a-prefix")
 		nd.Assert(w.after == 0, "no-write-after-failure")
